@@ -611,15 +611,23 @@ def run_l2(l2file, work):
 
 
 # ----------------------------------------------------------------------------
-def functions_encoded(gb):
-    rc, out, err, dt, to = run(["goto-instrument", "--drop-unused-functions", "--list-goto-functions", gb], timeout=120)
-    fns = []
+def functions_encoded(gb, entry="harness"):
+    """functions with a body that are reachable from the entry point in the goto binary (call graph), harness helpers excluded"""
+    rc, out, err, dt, to = run(["goto-instrument", "--list-goto-functions", gb], timeout=120)
+    have_body = set()
     for l in out.splitlines():
-        l = l.strip()
-        m = re.match(r"^(\S+)\s", l + " ")
-        if l and not l.startswith(("Reading", "Dropping", "Removing", "__CPROVER", "Function", "Adding")) and "(" not in l and " " not in l:
-            fns.append(l)
-    return fns
+        m = re.match(r"^(\S+) /\* .* \*/$", l.strip())
+        if m and "body not available" not in l:
+            have_body.add(m.group(1))
+    rc, out, err, dt, to = run(["goto-instrument", "--reachable-call-graph", gb], timeout=120)
+    reach = set()
+    for l in out.splitlines():
+        m = re.match(r"^(\S+) -> (\S+)$", l.strip())
+        if m:
+            reach.add(m.group(1)); reach.add(m.group(2))
+    fns = (have_body & reach) if reach else have_body
+    skip = re.compile(r"^(__CPROVER|__atomic|verif_|harness|ghost_|ring_|st_|v_|in_|do_|check_|run_|s_|t_|p_|cb$|cb_|job_cb|timer_cb|fd_|notify_cb|key_cb|oracle_|expect|kf_|key_index|val_index|stop_after_one|full_iteration|reset_all|mkstr|snapshot|dtor|entry_of|matches|add_one|expire_and_check|build_dir|ser$|do_serialize|iteration|three_iterations|post$|worker_iteration|level_pending|add_job|injected_cb|new_bin|disjoint|msg_process|writer$|wmod|bmod|ring_off|before_expiry|expiry_|exp_|overflows|removed_under|any_removed|total_scenarios|qb_verif_yield|gsem_of)")
+    return sorted(f for f in fns if not skip.search(f))
 
 
 def run_check(pid, tier, obligations, meta):
@@ -710,7 +718,7 @@ def run_check(pid, tier, obligations, meta):
         fns = set()
         for ob, r in final[:]:
             if r.get("gb") and os.path.exists(r["gb"]):
-                for fn in functions_encoded(r["gb"]):
+                for fn in functions_encoded(r["gb"], "harness_0" if ob.n_entries else ob.entry):
                     fns.add(fn)
         libfns = sorted(fns)
         decided = [(ob, r) for ob, r in final if r["status"] in ("pass", "known", "violation")]
